@@ -55,6 +55,9 @@ func main() {
 	default:
 		fatal("unknown command", cmd)
 	}
+	if !concMode {
+		recheckSeeds()
+	}
 	closeOut()
 	fmt.Fprintf(os.Stderr, "harness: %d events\n", nEvents)
 }
@@ -71,6 +74,10 @@ func set(names ...string) map[string]bool {
 
 func genFor(prop, tier string, seed int64, phase string) {
 	q := tier == "quick"
+	switch prop {
+	case "C01", "C02", "C03", "C05", "C08", "C15", "C04", "C10", "C11":
+		disturbOn = true
+	}
 	switch prop {
 	case "C01":
 		if q {
